@@ -8,7 +8,7 @@ JSON values, the two serialisations the library signs, and a strict RFC 8259 par
 * `renderPayload`   the DSSE payload: canonical form with control characters escaped so that it
                     is valid JSON (in_toto/envelope.go `SetPayload` after the repair).
 * `parseJ`          strict parser (raw control characters inside strings are rejected, as every
-                    conforming JSON parser does).  Used to state "any JSON parser decodes the
+                    conforming JSON parser does); `parseLenient` also reads the OLPC form.  Used to state "any JSON parser decodes the
                     payload to exactly the value that was set" and injectivity of the signed bytes.
 
 Core Lean only.
@@ -65,28 +65,29 @@ def int64Min : Int := -9223372036854775808
 def int64Max : Int := 9223372036854775807
 
 mutual
-  /-- `none` = the value cannot be canonicalised (non-integral / out-of-int64 number). -/
-  def render (esc : Bool) : JVal → Option Str
+  /-- `none` = the value cannot be canonicalised (non-integral / out-of-int64 number);
+      with `fracOK` (plain `json.Marshal`, used for files) such numbers are written as they are. -/
+  def render (esc fracOK : Bool) : JVal → Option Str
     | .null => some (lit% "null")
     | .bool true => some (lit% "true")
     | .bool false => some (lit% "false")
-    | .num i => if int64Min ≤ i ∧ i ≤ int64Max then some (renderInt i) else none
-    | .frac _ => none
+    | .num i => if fracOK ∨ (int64Min ≤ i ∧ i ≤ int64Max) then some (renderInt i) else none
+    | .frac l => if fracOK then some l else none
     | .str s => some (renderStr esc s)
-    | .arr l => (renderList esc l).map fun body => '[' :: body ++ [']']
-    | .obj l => (renderMembers esc l).map fun body => '{' :: body ++ ['}']
-  def renderList (esc : Bool) : List JVal → Option Str
+    | .arr l => (renderList esc fracOK l).map fun body => '[' :: body ++ [']']
+    | .obj l => (renderMembers esc fracOK l).map fun body => '{' :: body ++ ['}']
+  def renderList (esc fracOK : Bool) : List JVal → Option Str
     | [] => some []
-    | [v] => render esc v
+    | [v] => render esc fracOK v
     | v :: w :: rest =>
-      match render esc v, renderList esc (w :: rest) with
+      match render esc fracOK v, renderList esc fracOK (w :: rest) with
       | some a, some b => some (a ++ ',' :: b)
       | _, _ => none
-  def renderMembers (esc : Bool) : List (Str × JVal) → Option Str
+  def renderMembers (esc fracOK : Bool) : List (Str × JVal) → Option Str
     | [] => some []
-    | [(k, v)] => (render esc v).map fun a => renderStr esc k ++ ':' :: a
+    | [(k, v)] => (render esc fracOK v).map fun a => renderStr esc k ++ ':' :: a
     | (k, v) :: m :: rest =>
-      match render esc v, renderMembers esc (m :: rest) with
+      match render esc fracOK v, renderMembers esc fracOK (m :: rest) with
       | some a, some b => some (renderStr esc k ++ ':' :: a ++ ',' :: b)
       | _, _ => none
 end
@@ -106,10 +107,10 @@ mutual
 end
 
 /-- `cjson.EncodeCanonical` on a generic JSON value. -/
-def renderCanon (v : JVal) : Option Str := render false (sortKeys v)
+def renderCanon (v : JVal) : Option Str := render false false (sortKeys v)
 
 /-- DSSE payload bytes for a value: canonical, control characters escaped. -/
-def renderPayload (v : JVal) : Option Str := render true (sortKeys v)
+def renderPayload (v : JVal) : Option Str := render true false (sortKeys v)
 
 /-! ### strict parser (RFC 8259) -/
 
@@ -131,21 +132,21 @@ def hex4 (a b c d : Char) : Option Nat :=
   | _, _, _, _ => none
 
 /-- body of a string literal after the opening quote: `(decoded, rest after closing quote)` -/
-def parseStrBody : Nat → Str → Str → Option (Str × Str)
+def parseStrBody (strict : Bool) : Nat → Str → Str → Option (Str × Str)
   | 0, _, _ => none
   | fuel + 1, inp, acc =>
     match inp with
     | [] => none
     | '"' :: rest => some (acc.reverse, rest)
     | '\\' :: e :: rest =>
-      if e = '"' then parseStrBody fuel rest ('"' :: acc)
-      else if e = '\\' then parseStrBody fuel rest ('\\' :: acc)
-      else if e = '/' then parseStrBody fuel rest ('/' :: acc)
-      else if e = 'b' then parseStrBody fuel rest (Char.ofNat 8 :: acc)
-      else if e = 'f' then parseStrBody fuel rest (Char.ofNat 12 :: acc)
-      else if e = 'n' then parseStrBody fuel rest ('\n' :: acc)
-      else if e = 'r' then parseStrBody fuel rest ('\r' :: acc)
-      else if e = 't' then parseStrBody fuel rest ('\t' :: acc)
+      if e = '"' then parseStrBody strict fuel rest ('"' :: acc)
+      else if e = '\\' then parseStrBody strict fuel rest ('\\' :: acc)
+      else if e = '/' then parseStrBody strict fuel rest ('/' :: acc)
+      else if e = 'b' then parseStrBody strict fuel rest (Char.ofNat 8 :: acc)
+      else if e = 'f' then parseStrBody strict fuel rest (Char.ofNat 12 :: acc)
+      else if e = 'n' then parseStrBody strict fuel rest ('\n' :: acc)
+      else if e = 'r' then parseStrBody strict fuel rest ('\r' :: acc)
+      else if e = 't' then parseStrBody strict fuel rest ('\t' :: acc)
       else if e = 'u' then
         match rest with
         | a :: b :: c :: d :: rest' =>
@@ -158,18 +159,18 @@ def parseStrBody : Nat → Str → Str → Option (Str × Str)
                 match hex4 a2 b2 c2 d2 with
                 | some m =>
                   if 0xDC00 ≤ m ∧ m < 0xE000 then
-                    parseStrBody fuel rest'' (Char.ofNat (0x10000 + (n - 0xD800) * 1024 + (m - 0xDC00)) :: acc)
+                    parseStrBody strict fuel rest'' (Char.ofNat (0x10000 + (n - 0xD800) * 1024 + (m - 0xDC00)) :: acc)
                   else none
                 | none => none
               | _ => none
             else if 0xDC00 ≤ n ∧ n < 0xE000 then none
-            else parseStrBody fuel rest' (Char.ofNat n :: acc)
+            else parseStrBody strict fuel rest' (Char.ofNat n :: acc)
           | none => none
         | _ => none
       else none
     | c :: rest =>
-      if c.toNat < 0x20 then none          -- raw control character: not JSON
-      else parseStrBody fuel rest (c :: acc)
+      if strict ∧ c.toNat < 0x20 then none          -- raw control character: not JSON
+      else parseStrBody strict fuel rest (c :: acc)
 
 def isDigit (c : Char) : Bool := '0' ≤ c && c ≤ '9'
 
@@ -213,7 +214,7 @@ def parseNum (inp : Str) : Option (JVal × Str) :=
 def dropPrefix (p : Str) (s : Str) : Option Str := if p.isPrefixOf s then some (s.drop p.length) else none
 
 mutual
-  def parseVal : Nat → Str → Option (JVal × Str)
+  def parseVal (strict : Bool) : Nat → Str → Option (JVal × Str)
     | 0, _ => none
     | fuel + 1, inp =>
       match skipWs inp with
@@ -221,43 +222,43 @@ mutual
       | 'n' :: t => (dropPrefix (lit% "ull") t).map fun r => (.null, r)
       | 't' :: t => (dropPrefix (lit% "rue") t).map fun r => (.bool true, r)
       | 'f' :: t => (dropPrefix (lit% "alse") t).map fun r => (.bool false, r)
-      | '"' :: t => (parseStrBody (t.length + 1) t []).map fun r => (.str r.1, r.2)
+      | '"' :: t => (parseStrBody strict (t.length + 1) t []).map fun r => (.str r.1, r.2)
       | '[' :: t =>
         match skipWs t with
         | ']' :: r => some (.arr [], r)
-        | _ => (parseElems fuel t).map fun r => (.arr r.1, r.2)
+        | _ => (parseElems strict fuel t).map fun r => (.arr r.1, r.2)
       | '{' :: t =>
         match skipWs t with
         | '}' :: r => some (.obj [], r)
-        | _ => (parseMembers fuel t).map fun r => (.obj r.1, r.2)
+        | _ => (parseMembers strict fuel t).map fun r => (.obj r.1, r.2)
       | c :: t => if c = '-' ∨ isDigit c then parseNum (c :: t) else none
   /-- one or more elements followed by `]` -/
-  def parseElems : Nat → Str → Option (List JVal × Str)
+  def parseElems (strict : Bool) : Nat → Str → Option (List JVal × Str)
     | 0, _ => none
     | fuel + 1, inp =>
-      match parseVal fuel inp with
+      match parseVal strict fuel inp with
       | none => none
       | some (v, r) =>
         match skipWs r with
-        | ',' :: r' => (parseElems fuel r').map fun x => (v :: x.1, x.2)
+        | ',' :: r' => (parseElems strict fuel r').map fun x => (v :: x.1, x.2)
         | ']' :: r' => some ([v], r')
         | _ => none
   /-- one or more members followed by `}` -/
-  def parseMembers : Nat → Str → Option (List (Str × JVal) × Str)
+  def parseMembers (strict : Bool) : Nat → Str → Option (List (Str × JVal) × Str)
     | 0, _ => none
     | fuel + 1, inp =>
       match skipWs inp with
       | '"' :: t =>
-        match parseStrBody (t.length + 1) t [] with
+        match parseStrBody strict (t.length + 1) t [] with
         | none => none
         | some (k, r) =>
           match skipWs r with
           | ':' :: r1 =>
-            match parseVal fuel r1 with
+            match parseVal strict fuel r1 with
             | none => none
             | some (v, r2) =>
               match skipWs r2 with
-              | ',' :: r' => (parseMembers fuel r').map fun x => ((k, v) :: x.1, x.2)
+              | ',' :: r' => (parseMembers strict fuel r').map fun x => ((k, v) :: x.1, x.2)
               | '}' :: r' => some ([(k, v)], r')
               | _ => none
           | _ => none
@@ -265,9 +266,15 @@ mutual
 end
 
 /-- Parse a complete document (surrounding whitespace allowed, nothing else may follow). -/
-def parseJ (inp : Str) : Option JVal :=
-  match parseVal (inp.length + 1) inp with
+def parseWith (strict : Bool) (inp : Str) : Option JVal :=
+  match parseVal strict (inp.length + 1) inp with
   | some (v, r) => if skipWs r = [] then some v else none
   | none => none
+
+/-- the strict parser: what `encoding/json` (and any conforming parser) accepts -/
+def parseJ (inp : Str) : Option JVal := parseWith true inp
+
+/-- a reader of the OLPC canonical form, which leaves control characters in strings raw -/
+def parseLenient (inp : Str) : Option JVal := parseWith false inp
 
 end InToto.Json
